@@ -147,10 +147,10 @@ func NewModel() *refmodel.Model {
 
 // StepInfo is the result of one lock-step submission.
 type StepInfo struct {
-	Outcome string // model outcome
-	Node    *refmodel.Node
-	Reorg   bool
-	Res     rig.AddResult
+	Outcome  string // model outcome
+	Node     *refmodel.Node
+	Reorg    bool
+	Res      rig.AddResult
 	PrevBest *refmodel.Node
 }
 
